@@ -403,6 +403,7 @@ def raw_buffer_uses(prog, res, ents):
     (debug builds panic with `attempt to shift left with overflow`, release builds wrap)."""
     from .common import Sym
     raw = {}     # (adt, field) -> reader fn
+    inspected = {}
     for g in C.reach_from(prog, ents):
         filled = set()
         for b, site in g.calls():
@@ -463,6 +464,67 @@ def raw_buffer_uses(prog, res, ents):
                     for i, o in enumerate(st[2][-1]):
                         if i < len(names) and o[0] in ("c", "m") and isinstance(o[1], int) and o[1] in filled:
                             raw[(adt, names[i])] = g.id
+                            # does the reader ever look at the bytes it has just read (a shared borrow or an element read of the
+                            # filled vector, directly or through a closure / helper)?
+                            looked = False
+                            for b2 in g.blocks:
+                                if b2.cleanup:
+                                    continue
+                                for st2 in b2.stmts:
+                                    if st2[0] != "=":
+                                        continue
+                                    rv2 = st2[2]
+                                    if rv2[0] == "ref" and rv2[1] != "mut":
+                                        pl2 = rv2[2]
+                                        if (pl2 if isinstance(pl2, int) else pl2[0]) in filled:
+                                            looked = True
+                                    if rv2[0] in ("use", "cast"):
+                                        op2 = rv2[1] if rv2[0] == "use" else rv2[2]
+                                        if op2[0] in ("c", "m") and not isinstance(op2[1], int) and op2[1][0] in filled and any(p_[0] in ("[]", "[c]") for p_ in op2[1][1]):
+                                            looked = True
+                            inspected[(adt, names[i])] = looked
+    # C14.R (b): a method of the type that reaches an `expect` / `unwrap` / `unreachable!` / panic under a comparison of an element
+    # of such a buffer with a constant relies on an invariant of the bytes; a reader that never looks at the bytes cannot have
+    # established it
+    PANICKY = ("expect", "unwrap", "panic_fmt", "panic", "unreachable_display", "begin_panic", "panic_explicit")
+    n_b = 0
+    for (adt, fld), reader in sorted(raw.items()):
+        getters = set()
+        for f in C.fns_of(prog, adt):
+            e_ = C.ret_expr(prog, f) if not f.promoted and f.argc >= 1 else None
+            if e_ is not None and f.local_ty(0) in ("u8", "u16", "u32") and any(y[0] == "field" and y[-1] == fld for y in sym.walk(e_)):
+                getters.add(f.id)
+
+        def reads_buffer(x):
+            for y in sym.walk(x):
+                if y[0] == "index" and any(z[0] == "field" and z[-1] == fld for z in sym.walk(y[1])):
+                    return True
+                if y[0] == "call" and y[1] in getters:
+                    return True
+            return False
+        sites = []
+        for f in C.fns_of(prog, adt):
+            if f.promoted or f.id == reader or f.item_name.startswith(("deserialize", "new")):
+                continue
+            s_ = None
+            for b, site in f.calls():
+                nm = (site.get("callee") or "").rsplit("::", 1)[-1]
+                if nm not in PANICKY or f.blocks[b].cleanup:
+                    continue
+                if any(m_ in ("debug_assert", "debug_assert_eq", "debug_assert_ne") for m_ in ir.span_macros(site.get("span"))):
+                    continue
+                s_ = s_ or Sym(prog, f)
+                steer = [t for t in s_.cmp_facts_at(b) if len(t) == 3 and t[0] in ("Lt", "Le", "Gt", "Ge", "Eq", "Ne") and
+                         ((reads_buffer(t[1]) and t[2][0] == "const") or (reads_buffer(t[2]) and t[1][0] == "const"))]
+                if steer:
+                    sites.append((f, b, nm, steer[0]))
+        for f, b, nm, t in sites:
+            n_b += 1
+            res.tri(True if inspected.get((adt, fld)) else False, "C14.R", "C14.R|%s|%s|%s" % (f.id, fld, nm),
+                    "%s reaches `%s` under `%s %s %s` on an element of `%s`, a buffer %s copies from the image without ever looking at its bytes: an image "
+                    "with such an element and no matching state is returned as Ok and panics later" % (
+                        f.id, nm, sym.show(t[1])[:60], t[0], sym.show(t[2])[:20], fld, reader), f.id)
+    res.extra["raw_buffer_steered_panics"] = n_b
     n = 0
     for (adt, fld), reader in sorted(raw.items()):
         for f in C.fns_of(prog, adt):
@@ -578,6 +640,9 @@ def run(prog, ctx):
     res.extra["analysis"] = an.stats
     res.extra["accepted_invariants"] = accepted
     res.rule("C14.sinks", n_tainted, 300, "byte-tainted sink obligations reachable from the deserialize entries")
+    # a value returned as Ok must survive updates: the aux table an Hll4 image is rebuilt into keeps insert / find / grow on one
+    # probe sequence (C02.Q, Q2), otherwise an entry is lost and the next update of that slot hits an `expect`
+    C.import_rules(res, prog, ctx, "C14.Q", "C02", ("C02.Q", "C02.Q2"), "aux table rebuilt from an image", 2)
     res.explanation = ("interprocedural interval + taint abstract interpretation (MIR) over the %d functions reachable from the %d "
                        "deserialize entry points; every byte-tainted shift, allocation, index, checked arithmetic, division, explicit panic and "
                        "unwrap is an obligation; discharged = proved from dominating guards / post-conditions / field invariants; "
